@@ -82,8 +82,8 @@ PRELOAD_TEXTS = [
 
 
 def preload_shard(shard):
-    """After load_program of a program with a data segment (every declaration kind) the data-cache counters, the cycle
-    counter and the cache itself are untouched, and a first load of each declared word is a miss."""
+    """After load_program of a program with a data segment (every declaration kind) the data-cache counters and the cycle
+    counter are untouched, and the first counted read of the first declared word is a cold miss (the reference cache sees accesses only)."""
     ti = shard
     from architecture_simulator.simulation.riscv_simulation import RiscvSimulation
     p = Partial()
@@ -103,9 +103,17 @@ def preload_shard(shard):
                     bad.append(("preload-counted", f"data-cache counters after {loads} load(s): {st}"))
                 if sim.state.performance_metrics.cycles != 0:
                     bad.append(("preload-penalty", f"cycle counter is {sim.state.performance_metrics.cycles} after loading"))
-                cr = sim.get_data_cache_entries()
-                if any(b.valid_bit == "1" for s_ in cr.sets for b in s_.blocks):
-                    bad.append(("preload-allocates", "the data cache holds valid blocks right after load_program"))
+                if not bad:
+                    # the reference cache sees accesses only: the first counted access after the load is a cold miss
+                    c0 = sim.state.performance_metrics.cycles
+                    try:
+                        sim.state.memory.read_word(rv.BASE, True)
+                    except TypeError:
+                        sim.state.memory.read_word(rv.BASE, update_statistics=True)
+                    st = sim.get_data_cache_stats()
+                    if (st["accesses"], st["hits"], bool(st["last_hit"])) != ("1", "0", False) or sim.state.performance_metrics.cycles - c0 != 3:
+                        bad.append(("preload-then-first-access", f"first counted read after the load: {st}, cycle surcharge {sim.state.performance_metrics.cycles - c0}; "
+                                    "reference: 1 access, 0 hits, miss, surcharge 3"))
                 for f, d in bad:
                     p.violation(dict(oracle="preload", field=f), dict(kind="preload", ti=ti, ci=ci, mode=mode, loads=loads),
                                 f"{text!r} {kind}/{policy} i{ib}b{bb}w{ways} {mode}: {d}", size=(ti, ci, loads))
@@ -151,7 +159,7 @@ def run(ctx):
                 "replayed on fresh objects; per transition d(accesses), d(hits), last_hit and d(cycles) must equal a reference set-associative "
                 "cache (write-back = write-allocate, write-through = no-write-allocate, reads always allocate, LRU/PLRU from the reference "
                 "policies); in every state the resident (set, tag) pairs shown by cache_repr() equal the reference's (one-step look-ahead). "
-                "Control fixed point: with constant data the BFS runs to closure. Preload clause: after load_program of programs with every kind of data declaration (loaded once or twice) counters, cycle counter and cache are untouched. Program clause: counters identical in both pipeline modes, "
+                "Control fixed point: with constant data the BFS runs to closure. Preload clause: after load_program of programs with every kind of data declaration (loaded once or twice) counters and cycle counter are untouched and the first counted access afterwards is a cold miss with its penalty. Program clause: counters identical in both pipeline modes, "
                 "accesses = loads+stores of the golden run, hits = reference cache on the golden access stream. Non-trivial = history with an "
                 "eviction or rejection / program with both hits and misses.")
     ctx.assumptions += ["counter values are excluded from the state key (their deltas are checked on every transition); whether any counted access and any hit has happened yet is part of it",
